@@ -202,17 +202,13 @@ pub fn is_trap(msg: &str) -> bool {
         || msg.contains("attempt to calculate the remainder with a divisor of zero")
 }
 
-/// Link and run an accepted analysis, one public `Eval::step` at a time under a fuel bound.
-pub fn run(
-    session: &CompilerSession, analysis: &ProgramAnalysis, stdin: &[u8], argv: &[String], fuel: u64,
-) -> RunResult {
+/// Link an accepted analysis into the interpreter's input.
+pub fn link(
+    session: &CompilerSession, analysis: &ProgramAnalysis,
+) -> Result<zydeco_dynamics::syntax::DynamicsProgram, RunEnd> {
     let exe = match catch(|| session.executable_program(analysis)) {
-        | Err((msg, loc)) => {
-            return RunResult { stdout: vec![], end: RunEnd::Panic { msg, loc }, steps: 0 };
-        }
-        | Ok(Err(e)) => {
-            return RunResult { stdout: vec![], end: RunEnd::NotExecutable(e.to_string()), steps: 0 };
-        }
+        | Err((msg, loc)) => return Err(RunEnd::Panic { msg, loc }),
+        | Ok(Err(e)) => return Err(RunEnd::NotExecutable(e.to_string())),
         | Ok(Ok(exe)) => exe,
     };
     let linked = catch(|| {
@@ -224,15 +220,17 @@ pub fn run(
         }
         .run()
     });
-    let dynamics = match linked {
-        | Err((msg, loc)) => {
-            return RunResult { stdout: vec![], end: RunEnd::Panic { msg, loc }, steps: 0 };
-        }
-        | Ok(Err(e)) => {
-            return RunResult { stdout: vec![], end: RunEnd::NotExecutable(e.to_string()), steps: 0 };
-        }
-        | Ok(Ok(d)) => d,
-    };
+    match linked {
+        | Err((msg, loc)) => Err(RunEnd::Panic { msg, loc }),
+        | Ok(Err(e)) => Err(RunEnd::NotExecutable(e.to_string())),
+        | Ok(Ok(d)) => Ok(d),
+    }
+}
+
+/// Run a linked program one public `Eval::step` at a time under a fuel bound.
+pub fn run_linked(
+    dynamics: zydeco_dynamics::syntax::DynamicsProgram, stdin: &[u8], argv: &[String], fuel: u64,
+) -> RunResult {
     let mut input = std::io::Cursor::new(stdin.to_vec());
     let mut output: Vec<u8> = Vec::new();
     let mut steps = 0u64;
@@ -258,6 +256,16 @@ pub fn run(
     };
     let _ = Rc::new(());
     RunResult { stdout: output, end, steps }
+}
+
+/// Link and run an accepted analysis, one public `Eval::step` at a time under a fuel bound.
+pub fn run(
+    session: &CompilerSession, analysis: &ProgramAnalysis, stdin: &[u8], argv: &[String], fuel: u64,
+) -> RunResult {
+    match link(session, analysis) {
+        | Ok(d) => run_linked(d, stdin, argv, fuel),
+        | Err(end) => RunResult { stdout: vec![], end, steps: 0 },
+    }
 }
 
 pub fn end_str(end: &RunEnd) -> String {
